@@ -9,8 +9,8 @@
 enum { L_REIM, L_CPLX };
 enum { I_NATIVE, I_GENERIC, I_REF_DIRECT, I_AVX_DIRECT, I_BFS_REF, I_REC_REF, I_LEAF_REF, I_LEAF_AVX, I_BUILTIN_BUF, I_NAIVE, N_IMPL };
 static const char* impl_name[] = {"dispatch-native", "dispatch-generic", "ref-direct", "avx2-direct", "bfs16-ref", "rec16-ref", "leaf-ref", "leaf-avx", "builtin-buffers", "naive"};
-enum { X_RANDOM, X_IMPULSE, X_CONSTANT, X_RESONANT, X_DYNRANGE, X_INTEGER, X_TINY, X_HUGE, N_XFAM };
-static const char* xfam_name[] = {"random", "impulse", "constant", "resonant", "dynrange", "integer50", "scale2^-900", "scale2^+900"};
+enum { X_RANDOM, X_IMPULSE, X_CONSTANT, X_RESONANT, X_DYNRANGE, X_INTEGER, X_TINY, X_HUGE, X_NEARMAX, N_XFAM };
+static const char* xfam_name[] = {"random", "impulse", "constant", "resonant", "dynrange", "integer50", "scale2^-900", "scale2^+900", "one coefficient near DBL_MAX"};
 
 // table cache: [layout][inverse][native]
 static void* TAB[2][2][2][17];
@@ -97,6 +97,21 @@ static void gen_input(rng_t* r, int fam, uint64_t m, double* re, double* im) {
         im[i] = ldexp(rng_unit(r) * 2 - 1, fam == X_TINY ? -900 : 900);
       }
       break;
+    case X_NEARMAX: {
+      // "every finite input": one coefficient with both parts near the largest double, the rest of order one. Every exact output is
+      // that coefficient times a root of unity plus O(m): modulus below 1.2e308 * sqrt(2) = 1.70e308 < DBL_MAX, so the transform is
+      // finite - but a*(b+c)-style regroupings of the complex product (the sum of the two parts is 2.4e308) overflow
+      for (uint64_t i = 0; i < m; i++) {
+        re[i] = rng_unit(r) * 2 - 1;
+        im[i] = rng_unit(r) * 2 - 1;
+      }
+      const uint64_t pos = (rng_u64(r) & 3) ? (uint64_t)rng_range(r, 0, (int64_t)m - 1) : (rng_u64(r) & 1 ? 0 : m - 1);
+      const double c = 9.5e307 + rng_unit(r) * 2.5e307;
+      const unsigned sg = (unsigned)(rng_u64(r) & 3);
+      re[pos] = (sg & 1) ? -c : c;
+      im[pos] = (sg & 2) ? -c * (0.9 + 0.1 * rng_unit(r)) : c * (0.9 + 0.1 * rng_unit(r));
+      break;
+    }
     default:
       for (uint64_t i = 0; i < m; i++) {
         re[i] = rng_unit(r) * 2 - 1;
@@ -253,7 +268,7 @@ static void fft_case(int layout, int impl, int inverse, uint64_t m, int fam, uns
       lim[i] = im[i];
     }
     oracle_fft(m, lre, lim, ore, oim);
-    if (fam != X_DYNRANGE || (rep & 1))
+    if ((fam != X_DYNRANGE && fam != X_NEARMAX) || (fam == X_DYNRANGE && (rep & 1)))  // (near DBL_MAX: the vector itself, its forward transform times m would overflow)
       for (uint64_t i = 0; i < m; i++) {
         re[i] = (double)ore[i];
         im[i] = (double)oim[i];
@@ -543,4 +558,7 @@ void run_C06(void) {
           ops_concurrent_case("C06 entry points", CNAMES, (int)ARRAY_LEN(CNAMES), CNS[i], cfg, CNS[i] <= 256 ? 8 : 4, rep, "concurrent_entry_calls");
         }
   }
+  // modules / tables created, used and destroyed in random order, several alive at once
+  for (unsigned rep = 0; rep < (G.thorough ? 240u : 24u); rep++)
+    ops_lifecycle_case("C06 objects", LKM_REIM_FFT | LKM_REIM_IFFT | LKM_CPLX_FFT | LKM_CPLX_IFFT, (rep % 4) == 3 ? DISP_GENERIC : DISP_NATIVE, 160, 0, rep, "lifecycle_uses");
 }
